@@ -1,0 +1,29 @@
+//go:build verif
+// +build verif
+
+package rtsp
+
+import (
+	"bufio"
+
+	"github.com/cnotch/xlog"
+)
+
+// Access to the unexported receive loop for the verification harness
+// (build tag verif only; property C14).
+
+// VerifReceiver adapts three callbacks to the unexported receiveHandler interface.
+type VerifReceiver struct {
+	OnRequest  func(*Request) error
+	OnResponse func(*Response) error
+	OnPack     func(*RTPPack) error
+}
+
+func (v *VerifReceiver) onRequest(req *Request) error    { return v.OnRequest(req) }
+func (v *VerifReceiver) onResponse(resp *Response) error { return v.OnResponse(resp) }
+func (v *VerifReceiver) onPack(pack *RTPPack) error      { return v.OnPack(pack) }
+
+// VerifReceive is one call of receive (io.go).
+func VerifReceive(logger *xlog.Logger, r *bufio.Reader, channels []int, h *VerifReceiver) error {
+	return receive(logger, r, channels, h)
+}
